@@ -75,6 +75,27 @@ def x1(ctx, R):
         else:
             ctx.holds("X1", "rule %s: min width %d" % (name, rx.widths(P)[0]))
     ctx.need("X1", "lexer patterns", len(R.lrules) + 1, 10)
+    # the shape of the loop (which statement advances the position, from which match) is one way of writing a lexer; when the
+    # lexer was followed through the sample texts - every token delivered once, in order, the scan ending at the end of the text or at
+    # the first byte that is no token - the shape rules are recorded, not reported.  The width rule above holds for all inputs.
+    try:
+        from .c18 import lexer_eval
+        lev_ = lexer_eval(ctx, R)
+    except RecursionError:
+        lev_ = None
+    prev_ = ctx.demote(("X1",), "the evaluation of the lexer over sample texts (Z1/Z2)") if (lev_ is not None and lev_[0] == "ok") else None
+    try:
+        _x1_loop_shape(ctx, R)
+    except AnalysisError as e:
+        if prev_ is None:
+            raise
+        ctx.notice("X1", "lexer loop idiom not recognised (%s); decided by the evaluation of the lexer" % e.why)
+    finally:
+        if prev_ is not None:
+            ctx.restore(prev_)
+
+
+def _x1_loop_shape(ctx, R):
     scan = R.scan
     cfg = ctx.cfg(scan)
     loops = [n for n in walk_no_nested(scan.node) if isinstance(n, ast.While)]
@@ -715,6 +736,15 @@ def x6(ctx, R):
                 if nodes and all(cfg.guarded(x, lambda fc: length_fact(fc.expr, fc.pol, obj, need)) for x in nodes):
                     ctx.holds("X6", label, "guarded by a dominating length test")
                     continue
+                # the result of a method of the same class all of whose returns are tuple literals long enough
+                if isinstance(s.value, ast.Call) and isinstance(s.value.func, ast.Attribute) and isinstance(s.value.func.value, ast.Name) \
+                        and f.cls is not None and f.params and s.value.func.value.id == f.params[0]:
+                    callee = ctx.program.method(f.cls, s.value.func.attr) or ctx.program.method(f.cls, mangle(f.cls.name, s.value.func.attr))
+                    rets_ = [r_ for r_ in walk_no_nested(callee.node) if isinstance(r_, ast.Return)] if callee is not None else []
+                    if rets_ and all(isinstance(r_.value, ast.Tuple) and len(r_.value.elts) >= need and not any(
+                            isinstance(x_, ast.Starred) for x_ in r_.value.elts) for r_ in rets_):
+                        ctx.holds("X6", label, "%s returns %d-tuples" % (callee.qualname, min(len(r_.value.elts) for r_ in rets_)))
+                        continue
                 # obj itself indexed from a guarded object of known shape, e.g. stack[-1][0] with tuples pushed
                 if isinstance(s.value, ast.Subscript) and pushed_tuple_len(ctx, R, s.value.value) >= need:
                     ctx.holds("X6", label, "elements of %s are %d-tuples" % (norm(s.value.value), pushed_tuple_len(ctx, R, s.value.value)))
@@ -821,6 +851,21 @@ def flag_guard(cfg, use, bound, kill):
 SLOT_KEYS_ALWAYS = {"name", "type"}
 
 
+def in_annotation(n):
+    """n lies inside a parameter / return / variable annotation (never evaluated by the code under analysis)"""
+    p = getattr(n, "_parent", None)
+    c = n
+    while p is not None and not isinstance(p, ast.stmt) or isinstance(p, (ast.FunctionDef, ast.AsyncFunctionDef, ast.AnnAssign)):
+        if isinstance(p, ast.arg) and p.annotation is c:
+            return True
+        if isinstance(p, (ast.FunctionDef, ast.AsyncFunctionDef)):
+            return p.returns is c
+        if isinstance(p, ast.AnnAssign):
+            return p.annotation is c
+        c, p = p, getattr(p, "_parent", None)
+    return False
+
+
 def x7(ctx, R):
     ctx.rule("X7", "constant-key subscripts of per-command dictionaries / slot definitions are guarded by membership tests")
     n = 0
@@ -831,7 +876,7 @@ def x7(ctx, R):
         for s in walk_no_nested(f.node):
             key = None
             obj = None
-            if isinstance(s, ast.Subscript) and isinstance(s.ctx, ast.Load) and not isinstance(s.slice, ast.Slice):
+            if isinstance(s, ast.Subscript) and isinstance(s.ctx, ast.Load) and not isinstance(s.slice, ast.Slice) and not in_annotation(s):
                 kv = const_value(ctx.program, f, s.slice)
                 if isinstance(kv, str):
                     key, obj = kv, s.value
@@ -1281,7 +1326,10 @@ def x11(ctx, R):
                 if cn == "format" and isinstance(c.func, ast.Attribute) and isinstance(c.func.value, ast.Constant) and template(c) is not None:
                     continue  # message building: fields match the arguments (else X9 reports it)
                 from .c18 import position_helpers
-                if cn not in ("len", "str") and cn not in position_helpers(R) and not _total_bytes_call(c, _scan_text_name(tr)):
+                debug_print = isinstance(c.func, ast.Attribute) and isinstance(c.func.value, ast.Name) and c.func.value.id == f.params[0] \
+                    and ("print" in (cn or "") or "debug" in (cn or "").lower() or "trace" in (cn or "").lower())
+                if cn not in ("len", "str", "isinstance", "repr", "int", "bool", "type") and not debug_print and cn not in position_helpers(R) \
+                        and not _total_bytes_call(c, _scan_text_name(tr)):
                     ctx.violation("X11", f, "handler-call:%s" % cn, "the handler calls %s, which may raise outside the funnel" % norm(c)[:50], node=c)
     last = f.node.body[-1]
     if isinstance(last, ast.Return) and const_value(ctx.program, f, last.value) is True:
